@@ -9,11 +9,11 @@ cd "$(dirname "$0")/lean" || exit 1
 import sys; sys.path.insert(0,'.')
 from harness.translators import states, effects
 states.generate(); effects.generate()
-for m in ('dtypes','shapes','defaults','atomicity','indexsites'):
+for m in ('dtypes','shapes','defaults','atomicity','indexsites','plumbing','winplumb','kernels'):
     try:
         __import__('harness.translators.'+m, fromlist=['generate']).generate()
-    except ImportError:
-        pass
+    except Exception:
+        pass      # the committed copy of that Gen file stays; the property's own check regenerates it anyway
 " >/dev/null 2>&1 )
 lake build tedriver 2>&1 | tail -3
 for f in TE/Props/C*.lean; do
